@@ -70,6 +70,11 @@ def configs(tier, seed):
         cfgs.append(dict(backend='dict', backoff=bo, n=2, messages=1, harness_wait=True, slow_ops=['get'], d=3, dd=1, menu=MENU,
                          script=[['enqueue', 0], ['announce', 0]]))
     cfgs.append(dict(backend='redis', backoff='r0x2', n=2, messages=1, redis_yields=['hmget'], d=3, dd=1, menu=MENU))
+    # an announcement arriving while the removal of the settled message is still running
+    cfgs.append(dict(backend='dict', backoff='r0x2', n=2, messages=1, harness_wait=True, slow_ops=['remove'], d=3, dd=1, menu=MENU,
+                     script=[['enqueue', 0], ['announce', 0]]))
+    cfgs.append(dict(backend='shelf', backoff='r10', n=2, messages=0, prestored=1, harness_wait=True, slow_ops=['remove'], d=3, dd=1, menu=MENU,
+                     script=[['announce', 0], ['announce', 0]]))
     for b in ('shelf', 'disk'):
         cfgs.append(dict(backend=b, backoff='r0x2', n=2, messages=1, harness_wait=True, slow_ops=['get-late'], d=3, dd=1, menu=MENU,
                          script=[['enqueue', 0], ['announce', 0]]))
